@@ -71,7 +71,7 @@ pub fn migrate(from: &Path, mut to: Options, overwrite: bool, force_migrate: &[u
 	for c in 0..source_options.columns.len() as ColId {
 		if !to_migrate.contains(&c) {
 			if !overwrite {
-				drop(dest);
+				dest.close()?;
 				copy_column(c, from, &to.path)?;
 				dest = Db::open_or_create_in_version(&to, source_meta.version)?;
 			}
@@ -113,11 +113,11 @@ pub fn migrate(from: &Path, mut to: Options, overwrite: bool, force_migrate: &[u
 			dest.commit_raw(commit)?;
 			commit = Default::default();
 			nb_commit = 0;
-			drop(dest);
+			dest.close()?;
 			dest = Db::open_or_create_in_version(&to, source_meta.version)?; // This is needed to flush logs.
 			log::info!("Collection migrated {}, imported", c);
 
-			drop(dest);
+			dest.close()?;
 			drop(source);
 			let mut tmp_dir = from.to_path_buf();
 			tmp_dir.push(OVERWRITE_TMP_PATH);
@@ -157,7 +157,8 @@ pub fn migrate(from: &Path, mut to: Options, overwrite: bool, force_migrate: &[u
 		}
 	}
 	dest.commit_raw(commit)?;
-	Ok(())
+	// The last batches are processed while the handle shuts down.
+	dest.close()
 }
 
 /// Clear specified column. All data is removed and stats are reset.
